@@ -40,6 +40,7 @@ func c09prop(ev *evid.Rec) func(rt *rapid.T) {
 		ncuts := rapid.IntRange(0, 4).Draw(rt, "ncuts")
 		own := rapid.IntRange(0, 3).Draw(rt, "ownroot") == 0
 		optWide := rapid.Bool().Draw(rt, "resumeOptionWide")
+		previousLife := !preexisting && len(name) <= 240 && rapid.IntRange(0, 3).Draw(rt, "previousLife") == 0
 		// how the client's bytes on the transfer connection are cut into segments ("" = one Write per message)
 		seg := rapid.SampledFrom([]string{"", "", "random", "header", "bytes"}).Draw(rt, "segmentation")
 		segSeed := rapid.Uint64().Draw(rt, "segseed")
@@ -70,6 +71,20 @@ func c09prop(ev *evid.Rec) func(rt *rapid.T) {
 			final := filepath.Join(dir, name)
 			partial := final + ".incomplete"
 			c := loginAs(rt, w, "10.0.0.1:1", "admin", "adminpw", "admin")
+			if previousLife {
+				// the name has a history: a file with a resource fork and a comment lived under it and was deleted through
+				// the protocol; nothing of it may come back with the new upload
+				must(os.WriteFile(final, []byte("the earlier file"), 0o644))
+				must(os.WriteFile(filepath.Join(dir, ".rsrc_"+name), bytes.Repeat([]byte("OLD-RSRC "), 400), 0o644))
+				must(os.WriteFile(filepath.Join(dir, ".info_"+name), hlref.InfoFork{Platform: [4]byte{'A', 'M', 'A', 'C'}, Type: [4]byte{'O', 'L', 'D', '!'}, Creator: [4]byte{'O', 'L', 'D', '!'}, Name: wireName, Comment: []byte("comment of the earlier file")}.Encode(), 0o644))
+				df := []hlref.Field{fld(hlref.FFileName, wireName)}
+				if path != nil {
+					df = append(df, fld(hlref.FFilePath, path))
+				}
+				if !okReply(c.Request(hlref.TranDeleteFile, df...)) {
+					rt.Fatalf("harness: deleting the earlier file failed")
+				}
+			}
 			reqFields := func(resume bool, total int) []hlref.Field {
 				fs := []hlref.Field{fld(hlref.FFileName, wireName)}
 				if path != nil {
@@ -262,6 +277,14 @@ func c09prop(ev *evid.Rec) func(rt *rapid.T) {
 			}
 			if len(rx) < p.HeaderLen+size || !bytes.Equal(rx[p.HeaderLen:p.HeaderLen+size], content) {
 				rt.Fatalf("download of the uploaded file returns different bytes (cuts %v)", cutLog)
+			}
+			if forks == 2 {
+				if tail := rx[p.HeaderLen+size:]; len(tail) != 0 && !bytes.Equal(tail, hlref.ForkHeader("MACR", 0)) {
+					rt.Fatalf("download of the uploaded file: it was uploaded without a resource fork, but %d bytes follow the data fork (earlier file under this name deleted before: %v; cuts %v)", len(tail), previousLife, cutLog)
+				}
+				if string(p.Info.Comment) == "comment of the earlier file" || p.Info.Type == [4]byte{'O', 'L', 'D', '!'} {
+					rt.Fatalf("download of the uploaded file carries the information fork of the earlier, deleted file (type %q comment %q)", p.Info.Type[:], p.Info.Comment)
+				}
 			}
 			if preserve && forks == 3 && wholeStream {
 				// the completing attempt carried the whole resource fork: that, and nothing else, is the file's resource fork now
